@@ -28,6 +28,10 @@ pub mod c18;
 pub mod c20;
 pub mod c24;
 pub mod c26;
+pub mod c08l;
+pub mod c09;
+pub mod c10;
+pub mod c11;
 pub mod c28;
 pub mod driver_common;
 pub mod suite;
@@ -43,6 +47,10 @@ pub const REGISTRY: &[(&str, RunFn)] = &[
     ("C06", c06::run),
     ("C07", c07::run),
     ("C08", c08::run),
+    ("C08L", c08l::run),
+    ("C09", c09::run),
+    ("C10", c10::run),
+    ("C11", c11::run),
     ("C12", c12::run),
     ("C13", c13::run),
     ("C14", c14::run),
@@ -71,6 +79,7 @@ pub fn hidden_subcommand(name: &str, args: &[String]) -> Option<i32> {
         "__gtdump" => Some(crate::grammar_text::dump_main(args)),
         // lv __procdir <dir> <outdir> [--comments] [--report]: Configuration::process_dir in a fresh process (C20)
         "__procdir" => Some(c20::procdir_main(args)),
+        "__lexrun" => Some(c08l::hidden_lexrun(args)),
         _ => None,
     }
 }
